@@ -96,15 +96,13 @@ let parse_dec (impl : string list) : dec_obs =
     d_byron = parse_res parse_byron_desc (get t "Y");
     d_reward = parse_res parse_addr (get t "K") }
 
-let show_enc (custom_prefix : bool) (o : enc_obs) : string =
-  Printf.sprintf "%s T=%s D=%s M=%s A=%s P=%s Q=%s X=%s Z=%s"
+let show_enc (o : enc_obs) : string =
+  Printf.sprintf "%s T=%s D=%s M=%s A=%s P=%s B=%s Q=%s X=%s Z=%s"
     (short_kind o.e_strict)
     (hx o.e_bytes) (show_res show_addr o.e_strict) (show_res show_addr o.e_embedded) (show_acc o.e_acc)
     (match o.e_prefix with Ok p -> text_hex p | _ -> "err")
-    (if custom_prefix then "?" else
-       match o.e_prefix, o.e_bech32 with
-       | Ok _, Some r -> show_res show_addr r
-       | _, _ -> "none")
+    (match o.e_text with Some s -> text_hex s | None -> "none")
+    (match o.e_bech32 with Some r -> show_res show_addr r | None -> "none")
     (match o.e_base58 with None -> "~" | Some s -> text_hex s)
     (match o.e_base58_back with None -> "~" | Some r -> show_res show_byron r)
 
@@ -115,9 +113,25 @@ let parse_enc (impl : string list) : enc_obs =
     e_embedded = parse_res parse_addr (get t "M");
     e_acc = parse_acc (get t "A");
     e_prefix = (let p = get t "P" in if p = "err" then Err else Ok (unhx p));
+    e_text = (let b = get t "B" in if b = "none" then None else Some (unhx b));
     e_bech32 = (let q = get t "Q" in if q = "none" then None else Some (parse_res parse_addr q));
     e_base58 = (let x = get t "X" in if x = "~" then None else Some (unhx x));
     e_base58_back = (let z = get t "Z" in if z = "~" then None else Some (parse_res parse_byron_desc z)) }
+
+(* bech32 codec observations: U symbols, E text, D decoded (hrp, symbols), F from_base32 of those *)
+let show_pair = function None -> "none" | Some (h, d) -> Printf.sprintf "ok:%s:%s" (hx h) (hx d)
+let parse_pair s = if s = "none" then None else
+    match split_on ':' s with ["ok"; h; d] -> Some (unhx h, unhx d) | _ -> failwith "pair"
+let show_back = function None -> "~" | Some r -> show_res hx r
+let parse_back s = if s = "~" then None else Some (parse_res unhx s)
+let show_bech (o : bech_obs) : string =
+  Printf.sprintf "%s U=%s E=%s D=%s F=%s"
+    (match o.h_text, o.h_back with None, _ -> "refused" | Some _, Some (Ok _) -> "ok" | Some _, _ -> "pad")
+    (hx o.h_u5) (match o.h_text with Some s -> hx s | None -> "none") (show_pair o.h_dec) (show_back o.h_back)
+let parse_bech (impl : string list) : bech_obs =
+  let t = fields impl in
+  { h_u5 = unhx (get t "U"); h_text = (let e = get t "E" in if e = "none" then None else Some (unhx e));
+    h_dec = parse_pair (get t "D"); h_back = parse_back (get t "F") }
 
 let class_name (c : n) : string = match int_of_n c with
   | 1 -> "C11-embedded-trailing-bytes"
@@ -142,11 +156,26 @@ let () = run_driver (fun toks impl ->
     (m, v)
   | ["enc"; d; p] ->
     let a = parse_addr d in
-    let m = show_enc (p <> "~") (model_enc a) in
+    let prefix = if p = "~" then None else Some (unhx p) in
+    let m = show_enc (model_enc prefix a) in
     let v = (match impl with
         | [] -> "na"
-        | _ -> if is_panic_obs impl then "fails:-" else show_verdict (judge_enc a (parse_enc impl))) in
+        | _ -> if is_panic_obs impl then "fails:-" else show_verdict (judge_enc prefix a (parse_enc impl))) in
     (m, v)
+  | ["bech"; h; d] ->
+    let hrp = unhx h and data = unhx d in
+    let m = show_bech (model_bech hrp data) in
+    let v = (match impl with
+        | [] -> "na"
+        | _ -> if is_panic_obs impl then "fails:-" else show_verdict (judge_bech hrp data (parse_bech impl))) in
+    (m, v)
+  | ["bech5"; h; d] ->
+    let m = show_bech (model_bech5 (unhx h) (unhx d)) in
+    (m, (match impl with [] -> "na" | _ -> if is_panic_obs impl then "fails:-" else "holds"))
+  | ["bechd"; t] ->
+    let (dec, back) = model_bechd (unhx t) in
+    let m = Printf.sprintf "%s D=%s F=%s" (match dec with Some _ -> "ok" | None -> "err") (show_pair dec) (show_back back) in
+    (m, (match impl with [] -> "na" | _ -> if is_panic_obs impl then "fails:-" else "holds"))
   | ["b58"; h] ->
     let bs = unhx h in
     let (s, back) = model_b58 bs in
